@@ -51,6 +51,9 @@ type KubeletOpts struct {
 	NotReadyTaints bool // node.kubernetes.io/not-ready taints present (as on a fresh node)
 	ZeroExtended   bool // extended resources reported as zero (device plugin not up yet)
 	NoUnregistered bool // omit the karpenter.sh/unregistered taint
+	// OmitCapacity: what the first node status lacks: "" nothing, "extended" the extended-resource keys (device plugin not
+	// registered yet: the key is ABSENT, not zero), "all" every key (the kubelet has not posted its status yet)
+	OmitCapacity string
 	// StartupTaintVariant: how the kubelet writes the NodeClaim's startup taints: 0 verbatim, 1 same key and effect with a
 	// different value, 2 with timeAdded set (taint identity is key + effect)
 	StartupTaintVariant int
@@ -93,6 +96,17 @@ func (e *Env) KubeletRegister(inst *Instance, o KubeletOpts) *corev1.Node {
 			if strings.Contains(string(k), "/") {
 				capacity[k] = resource.MustParse("0")
 				alloc[k] = resource.MustParse("0")
+			}
+		}
+	}
+	switch o.OmitCapacity {
+	case "all":
+		capacity, alloc = corev1.ResourceList{}, corev1.ResourceList{}
+	case "extended":
+		for k := range capacity {
+			if strings.Contains(string(k), "/") {
+				delete(capacity, k)
+				delete(alloc, k)
 			}
 		}
 	}
